@@ -947,8 +947,56 @@ def _rd(path):
         return None
 
 
+TOOL_FILES = ("tasgridWrapper.cpp", "tasgridWrapper.hpp", "tasgrid_main.cpp", "clidrv.cpp")
+_STD_FRAME = re.compile(r"\((?:in /|stl_|new_allocator|alloc_traits|vector\.tcc|basic_string|allocator\.h|unique_ptr|shared_ptr|functional|std_function)")
+
+
+def valgrind_library_error(cmd, cwd, timeout=170):
+    """run one invocation under valgrind memcheck.  returns (found, text): found = memcheck reports an invalid access or a
+    use of uninitialised memory whose innermost non-libstdc++ frame is in the LIBRARY (not in the tool/driver sources)"""
+    if shutil.which("valgrind") is None:
+        return False, ""
+    try:
+        q = subprocess.run(["valgrind", "-q", "--error-exitcode=9"] + cmd, cwd=cwd, capture_output=True, text=True, timeout=timeout)
+    except subprocess.TimeoutExpired:
+        return False, ""
+    err = q.stderr
+    if "Invalid read" not in err and "Invalid write" not in err and "uninitialised" not in err:
+        return False, ""
+    for line in err.split("\n"):
+        m = re.match(r"==\d+==\s+(?:at|by) 0x[0-9A-Fa-f]+: (.*)", line)
+        if not m:
+            continue
+        fr = m.group(1)
+        if _STD_FRAME.search(fr) or "vgpreload" in fr:
+            continue
+        fm = re.search(r"\(([\w.+-]+):\d+\)\s*$", fr)
+        fname = fm.group(1) if fm else ""
+        return (fname not in TOOL_FILES), "\n".join(err.split("\n")[:14])
+    return False, ""
+
+
+def library_memory_error(sc, i, drv, runner, base):
+    """does the library commit a memory error (memcheck) while executing invocation i, on either side?"""
+    inv = sc.inv[i]
+    d = os.path.join(base, "vgT")
+    _restore_pre_state(sc.dt, d, sc.snaps, i, "tool")
+    found, text = valgrind_library_error([sc.tool] + inv["argv"], d)
+    shutil.rmtree(d, ignore_errors=True)
+    if found:
+        return True, "tool side: " + text
+    d = os.path.join(base, "vgA")
+    _restore_pre_state(sc.da, d, sc.snaps, i, "api")
+    sf = os.path.join(base, "redo.txt")
+    with open(sf, "w") as fh:
+        fh.write("snap " + " ".join(sc.snaps) + "\n" + " ".join(inv["argv"]) + "\n")
+    found, text = valgrind_library_error([drv, runner, sf, d], d)
+    shutil.rmtree(d, ignore_errors=True)
+    return found, ("api side: " + text if found else "")
+
+
 def self_consistent(sc, i, drv, runner, base):
-    """Re-execute invocation i on BOTH sides from its own pre-state with two different fill patterns for malloc'ed and
+    """(first filter; the second one is library_memory_error)  Re-execute invocation i on BOTH sides from its own pre-state with two different fill patterns for malloc'ed and
     freed memory (glibc MALLOC_PERTURB_).  A side that disagrees with itself reads uninitialised or freed memory inside
     the library: the outcome of that invocation is not a function of its inputs, so it cannot be compared.
     returns (consistent: bool, description)"""
@@ -1120,6 +1168,10 @@ def one_script(idx, seed, tool, drv, runner, replay_obj=None, witness=None):
         div = compare_script(sc, status, runner, counters)
         if div and div[1] in ("status", "grid", "output", "stdout") and div[0] < len(sc.inv):
             okc, why = self_consistent(sc, div[0], drv, runner, base)
+            if okc:
+                bad, text = library_memory_error(sc, div[0], drv, runner, base)
+                if bad:
+                    okc, why = False, "memcheck: the library reads/writes outside its objects or uses uninitialised memory: " + text[:900]
             if not okc:
                 counters["nondeterministic"] += 1
                 nondet = {"script": [i_["argv"] for i_ in sc.inv], "invocation": div[0], "why": why, "difference": div[2][:200]}
